@@ -426,7 +426,28 @@ def main():
           "  Rat.floor (swaps * (number_cross_links : Rat))",
           "/-- how `RandomlyRewireCrossLinks` builds what it hands to the kernel: (argument, expression) -/",
           "def rewireArgs : List (String × String) := ["
-          + ", ".join(f'("{a}", "{exprs.get(a, a)}")' for a in args) + "]", "",
+          + ", ".join(f'("{a}", "{exprs.get(a, a)}")' for a in args) + "]", ""]
+    for name, kern, lean in (("RandomlySetCrossLinks", "_randomlySetCrossLinks", "setArgs"),):
+        f = fn[name]
+        ex = {}
+        for s_ in f.body:                      # top-level, unconditional assignments only
+            if isinstance(s_, ast.Assign) and len(s_.targets) == 1:
+                t = s_.targets[0]
+                if isinstance(t, ast.Tuple) and isinstance(s_.value, ast.Tuple):
+                    for tt, vv in zip(t.elts, s_.value.elts):
+                        ex[ast.unparse(tt)] = ast.unparse(vv)
+                else:
+                    ex[ast.unparse(t)] = ast.unparse(s_.value)
+        call = [s_.value for s_ in f.body if isinstance(s_, ast.Expr) and isinstance(s_.value, ast.Call)
+                and ast.unparse(s_.value.func) == kern]
+        need(len(call) == 1, f"{name}: one kernel call")
+        args = [ast.unparse(a) for a in call[0].args]
+        L += [f"/-- how `{name}` builds what it hands to the kernel: (argument, expression) -/",
+              f"def {lean} : List (String × String) := ["
+              + ", ".join(f'("{a}", "{ex.get(a, a)}")' for a in args) + "]",
+              f"/-- the cross adjacency `{name}` counts the current links in -/",
+              f"def setCrossA : String := \"{ex.get('cross_A', '?')}\"", ""]
+    L += [
           "end Pyunicorn.Generated.StructC17", ""]
     os.makedirs(os.path.dirname(OUT), exist_ok=True)
     with open(OUT, "w") as fh:
